@@ -21,7 +21,7 @@ from checks import common
 
 ID = 'C12'
 LEVEL = 'exploration'
-TIERS = {'quick': 5000, 'thorough': 400000}
+TIERS = {'quick': 5000, 'thorough': 250000}
 BUDGET = {'quick': 150, 'thorough': 1500}
 RULE = ('seeded plans: descriptor + 1-3 shared values + 2-5 tasks (encode / decode / streaming decode with own arrival '
         'sub-plan / print / native codec, each with its own codec mode) + schedule {history with repeats | generator '
